@@ -297,6 +297,9 @@ func checkC20(c c20Case) *evid.Fail {
 				callerList[s][0] = variants.VariantFromString("caller's overwrite")
 			case "fromArray":
 				list := make([]*variants.Variant, len(op.V.A), len(op.V.A)+4)
+				if len(op.V.A) == 0 && op.Idx%2 == 0 {
+					list = nil // an empty list the way Go code usually has it: a nil slice
+				}
 				for i, e := range op.V.A {
 					list[i] = e.toVariant()
 				}
@@ -329,6 +332,21 @@ func checkC20(c c20Case) *evid.Fail {
 				for len(a) < n {
 					a = append(a, vNull())
 				}
+				model[s] = vArray(a...)
+			case "growFill":
+				// SetLength grows the array by two or more, then one of the new nulls is given a value in place
+				if model[s].K != "array" || frozen[s] {
+					continue
+				}
+				n0 := len(model[s].A)
+				v.SetLength(n0 + 2 + op.Idx%3)
+				a := append([]val{}, model[s].A...)
+				for len(a) < n0+2+op.Idx%3 {
+					a = append(a, vNull())
+				}
+				g := n0 + op.Idx%2
+				v.GetByIndex(g).SetAsString("filled in place")
+				a[g] = vString("filled in place")
 				model[s] = vArray(a...)
 			case "fillGap":
 				// SetByIndex two or more past the end, then one of the filler nulls is given a value in place
@@ -436,7 +454,7 @@ func c20NonTrivial(c c20Case) bool {
 			}
 		case "clone":
 			arrayMade = true
-		case "setByIndex", "setLength", "callerAppend", "fillGap":
+		case "setByIndex", "setLength", "callerAppend", "fillGap", "growFill":
 			if arrayMade {
 				return true
 			}
@@ -482,7 +500,7 @@ func genC20Value(t *rapid.T) val {
 func TestC20_RapidSM(t *testing.T) {
 	rec := evid.New("C20", "TestC20_RapidSM", "C20", c20Rule)
 	defer finish(t, rec)
-	opsKinds := []string{"set", "set", "fromArray", "setByIndex", "setByIndex", "setLength", "getByIndex", "assign", "assignNil", "clone", "clone", "clear", "equals", "equals", "callerAppend", "callerAppend", "fillGap"}
+	opsKinds := []string{"set", "set", "fromArray", "setByIndex", "setByIndex", "setLength", "getByIndex", "assign", "assignNil", "clone", "clone", "clear", "equals", "equals", "callerAppend", "callerAppend", "fillGap", "growFill"}
 	runRapid(t, pick(40000, 300000), 20, func(rt *rapid.T) {
 		n := rapid.IntRange(1, 14).Draw(rt, "n")
 		var ops []c20Op
@@ -497,7 +515,7 @@ func TestC20_RapidSM(t *testing.T) {
 					v = vArray(v)
 				}
 				op.V = v
-			case "setByIndex", "fillGap":
+			case "setByIndex", "fillGap", "growFill":
 				op.V = genC20Elem(rt)
 			}
 			ops = append(ops, op)
@@ -528,7 +546,7 @@ func TestC20_ExhaustiveShortHistories(t *testing.T) {
 		{Op: "setByIndex", Slot: 0, Idx: 0, V: vString("w")}, {Op: "setByIndex", Slot: 1, Idx: 2, V: vInt(9)}, {Op: "setLength", Slot: 1, Idx: 2},
 		{Op: "clone", Slot: 1, Src: 0}, {Op: "clone", Slot: 0, Src: 1}, {Op: "assign", Slot: 1, Src: 0}, {Op: "clear", Slot: 0},
 		{Op: "equals", Slot: 0, Src: 1}, {Op: "getByIndex", Slot: 1, Idx: 0},
-		{Op: "set", Slot: 1, V: vArray()}, {Op: "callerAppend", Slot: 1}, {Op: "callerAppend", Slot: 0}, {Op: "fillGap", Slot: 1, Idx: 1, V: vInt(5)},
+		{Op: "set", Slot: 1, V: vArray()}, {Op: "callerAppend", Slot: 1}, {Op: "callerAppend", Slot: 0}, {Op: "fillGap", Slot: 1, Idx: 1, V: vInt(5)}, {Op: "growFill", Slot: 1, Idx: 1}, {Op: "fromArray", Slot: 0, V: vArray()},
 		{Op: "set", Slot: 0, V: vArray(vArray(vInt(1), vInt(2)), vArray(vInt(1), vInt(2)))}, {Op: "set", Slot: 1, V: vArray(vArray(vInt(1), vInt(2)), vArray(vInt(1), vInt(3)))},
 	}
 	depth := pick(4, 5)
